@@ -157,10 +157,13 @@ def dop_any(d: Dict[str, Any], layer: str) -> (str, str):
                                       ref("UNIT-REF", layer, d.get("unit")), constr("PHYS-CONSTR", d.get("phys_constr")), ID=i)
     if k == "dtcdop":
         dtcs = [X("DTC", names(t["name"]), T("TROUBLE-CODE", t["code"]), T("DISPLAY-TROUBLE-CODE", t.get("display", "P%04X" % t["code"])),
-                  T("TEXT", t.get("text", "dtc " + t["name"])), T("LEVEL", t.get("level")), ID=oid(layer, "DTC." + t["name"]))
+                  T("TEXT", t.get("text", "dtc " + t["name"])), T("LEVEL", t.get("level")),
+                  X("SDGS", X("SDG", X("SDG-CAPTION-REF", ID_REF=t["sdg_caption_ref"]))) if t.get("sdg_caption_ref") else "",
+                  ID=oid(layer, "DTC." + t["name"]))
                 for t in d["dtcs"]]
         linked = [X("LINKED-DTC-DOP", X("NOT-INHERITED-DTC-SNREFS", *[X("NOT-INHERITED-DTC-SNREF", SHORT_NAME=n) for n in ln.get("not_inherited", [])])
                     if ln.get("not_inherited") else "", X("DTC-DOP-REF", ID_REF=oid(layer, ln["dop"]))) for ln in d.get("linked", [])]
+        dtcs += [X("DTC-REF", ID_REF=r) for r in d.get("dtc_refs", [])]  # (references to DTCs defined elsewhere)
         return "DTC-DOPS", X("DTC-DOP", nm, dct(d["dct"], layer), phys_type(d.get("phys", "A_UINT32")),
                              compu_method(d.get("cm", IDENTICAL)), X("DTCS", *dtcs), X("LINKED-DTC-DOPS", *linked) if linked else "", ID=i)
     if k == "struct":
